@@ -471,6 +471,16 @@ func (sc *dssScen) play(j int, evs []dssEv, desc string) dssCase {
 			}
 			fail(key, fmt.Sprintf("EnoughPartialSig = %v with %d accepted partials, t = %d", d.EnoughPartialSig(), len(accepted), sc.t))
 		}
+		// asking for the signature early is a query: it is refused while partials are missing and takes nothing
+		// away from what later partials make possible
+		if !cs.panicked {
+			var qe error
+			if kc.Recover(func() string { _, qe = d.Signature(); return "" }) == "panic" {
+				fail("C12:Signature:panic-early", "Signature() panics when asked before all partials are in")
+			} else if (qe == nil) != d.EnoughPartialSig() {
+				fail("C12:Signature:early-query", fmt.Sprintf("Signature() error=%v although EnoughPartialSig=%v", qe, d.EnoughPartialSig()))
+			}
+		}
 	}
 	sig, err := d.Signature()
 	sg := "err"
